@@ -7,6 +7,7 @@ import Setec.Driver.StoreDrv
 import Setec.Driver.LookupDrv
 import Setec.Driver.BackupDrv
 import Setec.Driver.FieldsDrv
+import Setec.Driver.UpdaterDrv
 import Setec.Generated.Facts
 open Setec.Driver
 
@@ -74,6 +75,11 @@ def main (args : List String) : IO UInt32 := do
     let st ← loop stdin fieldsLine {} 1
     printCover st.cover
     IO.println s!"SUMMARY family=fields steps={st.cases} clause_evals={st.cases * 9} propfail={st.fails} diverge={st.diverges}"
+    return 0
+  | ["updater"] =>
+    let st ← loop stdin updaterLine {} 1
+    printCover st.cover
+    IO.println s!"SUMMARY family=updater steps={st.cases} clause_evals={st.cases * 7} propfail={st.fails} diverge={st.diverges}"
     return 0
   | ["fs"] =>
     let st ← loop stdin fsLine {} 1
